@@ -163,11 +163,17 @@ func vH_C08_revert() {
 	var stack []vFlushRec
 	nf := vChoose("flushes", 0, vParam("flushes"))
 	for i := 0; i < nf; i++ {
-		key, val := vBytes("k", 1), vBytes("v", 1)
+		vl := 1
+		if vParam("bigval") == 1 && i == nf-1 {
+			// long enough to spell the doubled end marker: the backward scan of a
+			// later FlushRevert must not be fooled by it
+			vl = 12
+		}
+		key, val := vBytes("k", 1), vBytes("v", vl)
 		vAssert("set-ok", c.Set(key, val) == nil)
 		it, _ := c.GetItem(key, false)
 		m.set(key, val, it.Priority)
-		if vChoose("second-op", 0, 1) == 1 {
+		if vChoose("second-op", 0, 1-vParam("lean")) == 1 {
 			k2 := vBytes("k2", 1)
 			was, err := c.Delete(k2)
 			vAssert("delete-ok", vAnd(err == nil, was == m.del(k2)))
@@ -176,16 +182,22 @@ func vH_C08_revert() {
 		vAssert("flush-ok", s.Flush() == nil)
 		stack = append(stack, vFlushRec{m.clone(), int64(len(f.data)), true})
 	}
+	pend := vChoose("pending", 0, 2*(1-vParam("lean")))
+	if pend >= 1 && c != nil {
+		vTrace("pending-Set")
+		c.Set(vBytes("pk", 1), vBytes("pv", 1))
+		if pend == 2 {
+			// persisted but not committed: bytes behind the last root record
+			vTrace("pending-Write")
+			vAssert("pending-write-ok", c.Write() == nil)
+		}
+	}
 	if nf > 0 && vChoose("reopen", 0, 1) == 1 {
 		vTrace("Reopen")
 		s2, err := NewStore(f)
 		vAssert("reopen-ok", vAnd(err == nil, s2 != nil))
 		s = s2
 		c = s.GetCollection("a")
-	}
-	if vChoose("pending", 0, 1) == 1 && c != nil {
-		vTrace("pending-Set")
-		c.Set(vBytes("pk", 1), vBytes("pv", 1))
 	}
 	r := vChoose("reverts", 1, nf+1)
 	for j := 0; j < r; j++ {
@@ -226,7 +238,7 @@ func vH_C08_revert() {
 		}
 	}
 	// new flushes after a revert are durable as usual
-	if vChoose("continue", 0, 1) == 1 {
+	if vChoose("continue", 0, 1-vParam("lean")) == 1 {
 		vTrace("continue")
 		c = s.SetCollection("a", nil)
 		cur := &vModel{cmp: vCmpDefault}
